@@ -515,7 +515,14 @@ def _r7(run, mods):
                         plain = all(isinstance(s.value.args[0], ast.Name) or (isinstance(s.value.args[0], ast.Call) and isinstance(s.value.args[0].func, ast.Attribute)
                                     and s.value.args[0].func.attr == 'freeze' and isinstance(s.value.args[0].func.value, ast.Name) and not s.value.args[0].args)
                                     for s in w.body) if body_ok else False
-                        if body_ok and not plain:
+                        strict = [k for s_ in w.body if body_ok for k in s_.value.keywords
+                                  if (k.arg == 'allow_nan' and norm(k.value) == 'False') or k.arg in ('default', 'cls', 'check_circular')]
+                        if body_ok and strict:
+                            run.fail('C06-R7', '%s|%s|write-block-strict' % (mi.name, fname), mi.relpath, w.lineno,
+                                     '%s dumps with %s=%s inside the "w" block: the encoder can raise after the file was truncated (a table with a '
+                                     'non-finite value is rejected half-way), which destroys every key stored in that file before'
+                                     % (fname, strict[0].arg, norm(strict[0].value)))
+                        elif body_ok and not plain:
                             run.fail('C06-R7', '%s|%s|write-block-computes' % (mi.name, fname), mi.relpath, w.lineno,
                                      '%s builds or converts the dumped object inside the "w" block (%s): a conversion that raises there leaves a truncated file '
                                      'and destroys the keys stored before' % (fname, norm(w.body[0].value.args[0])[:60]))
@@ -732,6 +739,7 @@ _BE = REPO_DIR + 'beam/emission.py'
 _BC = REPO_DIR + 'beam/cx.py'
 _U = REPO_DIR + 'utility.py'
 MUTANTS = [
+    dict(name='strict-json-inside-the-write-block', file='cherab/openadas/repository/pec.py', find="json.dump(content, f, indent=2, sort_keys=True)", replace="json.dump(content, f, indent=2, sort_keys=True, allow_nan=False)", occurrence=0, expect='C06-R7'),
     dict(name='wavelength-getter-memoised', file=REPO_DIR + 'wavelength.py', find="def get_wavelength(", replace="@functools.lru_cache(maxsize=None)\ndef get_wavelength(", expect='C06-R11'),
     dict(name='stopping-record-converted-inside-write-block', file=REPO_DIR + 'beam/stopping.py', find="        json.dump(rate, f, indent=2, sort_keys=True)",
          replace="        json.dump({k: (v if isinstance(v, list) else float(v)) for k, v in rate.items()}, f, indent=2, sort_keys=True)", occurrence=0, of=1, expect='C06-R7'),
